@@ -143,3 +143,14 @@ class Loc(Task):
     def run(self, p, ts) -> str:
         RUNS.append(self.fullname)
         return str(p)
+
+
+class NsScore(Task):
+    """used by the namespace-prefix scenario: the value shows which x / y the task was configured with"""
+
+    class Meta:
+        parameters = [Parameter('x'), Parameter('y')]
+
+    def run(self, x, y) -> int:
+        RUNS.append(self.fullname)
+        return 1000 * x + y
